@@ -24,11 +24,13 @@ RULE = ("cases = list of <=25 ops: set_bounds (any of the seven properties, "
         "any min<max incl. ranges excluding 0 and boxes degenerate in one "
         "axis) at any point; move/rapid/move_absolute/rapid_absolute/probe/"
         "set_axis in both distance modes from partially known positions with "
-        "F/S words; set_feed_rate, set_tool_power, tool_on/power_on, "
+        "F/S words, optionally through a move hook that returns a new parameter "
+        "dict with F/S; set_feed_rate, set_tool_power, tool_on/power_on, "
         "tool_change, three temperature setters, three waiting halts with S or "
         "R; tracer shapes crossing the box; every bounded value drawn from "
         "{min, max, nextafter(min,-inf), nextafter(max,+inf), interior, far "
-        "outside, NaN, +-inf} of the bound in force; non-trivial = a value "
+        "outside, NaN, +-inf, the value last given to that property (whatever "
+        "limits were in force then)} of the bound in force; non-trivial = a value "
         "within 1 ulp of a bound, or NaN against a set bound, or a tracer path "
         "cut by the box, or a relative move from a partially unknown position "
         "with axes bounds set; distinct by SHA-1")
@@ -53,14 +55,30 @@ LEVEL_TEXT = ("Generated histories whose numeric arguments are aimed at the "
 SCALARS = ["bed-temperature", "chamber-temperature", "hotend-temperature",
            "feed-rate", "tool-number", "tool-power"]
 KINDS = ["min", "max", "below", "above", "in", "in", "in", "far_lo", "far_hi",
-         "nan", "nan", "inf", "-inf"]
+         "nan", "nan", "inf", "-inf", "prev", "prev"]
+# "prev" = the very value this property/axis was last given in this history
+# (whatever limits were in force then): what a stale cache would let through
 DEFAULT_RANGE = (0.0, 100.0)
 
 
-def resolve(vd, bounds):
+PREV = {}
+
+
+def resolve(vd, bounds, key=None):
+    v = _resolve(vd, bounds, key)
+    if key is not None:
+        PREV[key] = v
+    return v
+
+
+def _resolve(vd, bounds, key):
     lo, hi = bounds if bounds is not None and bounds[0] is not None else DEFAULT_RANGE
     lo, hi = float(lo), float(hi)
     k = vd["k"]
+    if k == "prev":
+        if key in PREV:
+            return PREV[key]
+        k = "in"
     if k == "min":
         return lo
     if k == "max":
@@ -142,6 +160,8 @@ def op_strategy(only_bounds=False):
     misc = st.one_of(
         st.sampled_from(["absolute", "relative"]).map(
             lambda m: {"op": "set_distance_mode", "mode": m}),
+        st.one_of(st.none(), st.fixed_dictionaries({}, optional={"F": vd, "S": vd})).map(
+            lambda sp: {"op": "hook", "spec": sp}),
         st.fixed_dictionaries({"op": st.just("auto_home"),
                                "axes": st.lists(st.sampled_from(["x", "y", "z"]),
                                                 max_size=2, unique=True)}),
@@ -181,9 +201,21 @@ def near(v, b):
 
 def run_case(case, cl=None):
     cl = set() if cl is None else cl
+    PREV.clear()
     s = Session(dp=case.get("dp", 6))
     g = s.g
     model = sh.InterlockModel()
+    hook_state = {"on": None}
+
+    def rewriting_hook(origin, target, params, state):
+        """Returns a NEW parameter dict whose F/S come from the descriptor."""
+        from gscrib.params import ParamsDict
+        new = ParamsDict(params)
+        spec = hook_state["on"]
+        for letter, bname in (("F", "feed-rate"), ("S", "tool-power")):
+            if spec.get(letter) is not None:
+                new[letter] = resolve(spec[letter], get_bounds(g, bname), "hook" + letter)
+        return new
     U = s.U
     for i, op in enumerate(case["ops"]):
         name = op["op"]
@@ -206,6 +238,14 @@ def run_case(case, cl=None):
                 # later: outcome not prescribed by the property
                 cl.add("auto_home_rejected")
             s.poll()
+            continue
+        if name == "hook":
+            g.remove_hook(rewriting_hook)
+            hook_state["on"] = None
+            if op.get("spec") is not None:
+                hook_state["on"] = op["spec"]
+                g.add_hook(rewriting_hook)
+                cl.add("rewriting_hook_installed")
             continue
         if name == "tool_off":
             g.tool_off()
@@ -251,7 +291,7 @@ def run_case(case, cl=None):
                 else list(o)
             for ax, vd in op["aim"].items():
                 k = "xyz".index(ax)
-                a = resolve(vd, None if box is None else (box[0][k], box[1][k]))
+                a = resolve(vd, None if box is None else (box[0][k], box[1][k]), "axis" + ax)
                 if rel and name in ("move", "rapid", "probe"):
                     d = a - o[k]
                     kw[ax] = d
@@ -274,7 +314,7 @@ def run_case(case, cl=None):
                     cl.add("relative_move_from_partially_unknown_with_box")
             for letter, vd in op["fs"].items():
                 bname = "feed-rate" if letter == "F" else "tool-power"
-                v = resolve(vd, B[bname])
+                v = resolve(vd, B[bname], bname)
                 kw[letter] = v
                 if not inside(v, B[bname]):
                     must_reject.append(f"{letter}={v!r} outside {B[bname]!r}")
@@ -288,11 +328,14 @@ def run_case(case, cl=None):
                 args = ["towards"]
             if name == "set_axis":
                 judged = False       # G92 does not move: outcome not prescribed
+            if hook_state["on"] is not None and name in ("move", "move_absolute"):
+                judged = False       # effective F/S are the hook's: judged on the output
+                cl.add("move_with_rewriting_hook")
         elif name in ("set_feed_rate", "set_tool_power", "tool_on", "power_on",
                       "set_bed_temperature", "set_hotend_temperature",
                       "set_chamber_temperature"):
             bname = BOUND_OF[name]
-            v = resolve(op["v"], B[bname])
+            v = resolve(op["v"], B[bname], bname)
             if name == "tool_on":
                 args = ["cw", v]
             elif name == "power_on":
@@ -311,7 +354,7 @@ def run_case(case, cl=None):
                 cl.add("value_within_1ulp_of_bound")
         elif name == "tool_change":
             b = B["tool-number"]
-            v = resolve(op["v"], b)
+            v = resolve(op["v"], b, "tool-number")
             n = int(v) if math.isfinite(v) else 0
             if op["v"]["k"] in ("min", "below") and b is not None:
                 n = math.ceil(b[0]) if op["v"]["k"] == "min" else math.ceil(b[0]) - 1
@@ -324,7 +367,7 @@ def run_case(case, cl=None):
                 must_reject.append("tool number < 1")
         elif name == "halt":
             bname = BOUND_OF[op["mode"]]
-            v = resolve(op["v"], B[bname])
+            v = resolve(op["v"], B[bname], bname)
             args = [op["mode"]]
             kw = {op["letter"]: v}
             if not inside(v, B[bname]):
@@ -355,9 +398,8 @@ def run_case(case, cl=None):
                                 f"{bytes(s.rec.data[b0:])!r}")
         else:
             cl.add("rejected")
-            if len(s.rec.data) != b0:
-                raise Violation(f"{where}: {call} raised {type(exc).__name__} but "
-                                f"wrote {bytes(s.rec.data[b0:])!r}")
+            # whatever a rejected call may have written is judged by
+            # check_lines below like any other output (atomicity is C05's)
             if judged and not must_reject and not interlock:
                 raise Violation(f"{where}: {call} raised {type(exc).__name__}: {exc} "
                                 f"although every value is inside the limits "
